@@ -172,6 +172,11 @@ func (f *FibStrategyTree) InsertNextHopEnc(name enc.Name, nexthop uint64, cost u
 	f.fibStrategyRWMutex.Lock()
 	defer f.fibStrategyRWMutex.Unlock()
 
+	f.insertNextHopEnc(name, nexthop, cost)
+}
+
+// insertNextHopEnc is InsertNextHopEnc without locking (the caller holds the write lock).
+func (f *FibStrategyTree) insertNextHopEnc(name enc.Name, nexthop uint64, cost uint64) {
 	name = name.Clone()
 	entry := f.fillTreeToPrefixEnc(name)
 	if entry.name == nil {
@@ -197,6 +202,11 @@ func (f *FibStrategyTree) ClearNextHopsEnc(name enc.Name) {
 	f.fibStrategyRWMutex.Lock()
 	defer f.fibStrategyRWMutex.Unlock()
 
+	f.clearNextHopsEnc(name)
+}
+
+// clearNextHopsEnc is ClearNextHopsEnc without locking (the caller holds the write lock).
+func (f *FibStrategyTree) clearNextHopsEnc(name enc.Name) {
 	if name == nil {
 		return // In some weird case, when RibEntry.updateNexthops() is called, the name becomes nil.
 	}
@@ -205,6 +215,20 @@ func (f *FibStrategyTree) ClearNextHopsEnc(name enc.Name) {
 		node.nexthops = make([]*FibNextHopEntry, 0)
 		delete(f.fibPrefixes, name.Hash())
 		node.pruneIfEmpty()
+	}
+}
+
+// ReplaceNextHopsEnc replaces the nexthops of all the given prefixes while
+// holding the write lock once.
+func (f *FibStrategyTree) ReplaceNextHopsEnc(updates []FibNextHopsUpdate) {
+	f.fibStrategyRWMutex.Lock()
+	defer f.fibStrategyRWMutex.Unlock()
+
+	for _, update := range updates {
+		f.clearNextHopsEnc(update.Name)
+		for _, nexthop := range update.NextHops {
+			f.insertNextHopEnc(update.Name, nexthop.Nexthop, nexthop.Cost)
+		}
 	}
 }
 
